@@ -559,7 +559,7 @@ def prepare_case04(d: dict, org: str, model_ok: bool, keep: Optional[Dict[str, A
         keep["b"] = pair[1] if pair else None
     heap, r, anom = c04.input_heap(d)
     m = {"descr": d, "origin": org, "ft": ft, "res": res, "anomalies": anom, "heap": heap, "root": r, "expr": None,
-         "in_f": False, "alts": c04.alts_ab(), "root_class": d["objs"][d["root"]]["c"]}
+         "in_f": False, "alts": c04.alts_ab(), "renamed_rel": bool(c04.DAOKEY), "root_class": d["objs"][d["root"]]["c"]}
     if "exc" not in res:
         args = f"{c04.heap_term(heap)} {r}%nat {c04.heap_term(res['heap'])} {res['root']}%nat"
         fn = c04.code_fns(d, model_ok)[0]
